@@ -119,7 +119,7 @@ pub fn run_one(flow: &Flow, inp: &RunIn<'_>, pending_child: &Pending) -> RunOut 
         }
     }
     if let Verdict::Panic(msg, loc) = &a.verdict {
-        if !panic_in_sut(loc) && !msg.starts_with("Stream ended") {
+        if !panic_in_sut(loc) && !msg.starts_with("Stream ended") && !msg.starts_with(STEP_CAP_MSG) {
             out.harness_error = Some(format!("harness-side panic at {loc}: {msg}"));
         }
     }
